@@ -374,6 +374,9 @@ func c09ReadOnly(op, back string) func(*c09Ctx) error {
 				_, err := bs.GetSize(ctx, k)
 				note(err)
 			}
+		case "Roots":
+			_, err := bs.Roots()
+			note(err)
 		case "AllKeysChan":
 			cctx, cancel := context.WithCancel(ctx)
 			defer cancel()
@@ -493,14 +496,14 @@ func c09MakeEPs() []c09EP {
 		return c09UseIndex(c, idx)
 	}, hdrV1: true, okV1: true, okV2: true, sections: true}) // a CARv2 with an index is not scanned
 	for _, back := range []string{"bytes.Reader", "ReaderAt"} {
-		for _, op := range []string{"Has", "Get", "GetSize", "AllKeysChan"} {
+		for _, op := range []string{"Has", "Get", "GetSize", "AllKeysChan", "Roots"} {
 			buf := ""
 			if op == "Get" {
 				buf = "lookup"
 			}
 			// with an index in the file the inner header is read only by AllKeysChan/Roots
 			eps = append(eps, c09EP{name: "blockstore.NewReadOnly(" + back + ")+" + op, fn: c09ReadOnly(op, back),
-				hdrV1: true, okV1: true, hdrV2: op == "AllKeysChan", okV2: true, sections: true, secBuf: buf})
+				hdrV1: true, okV1: true, hdrV2: op == "AllKeysChan" || op == "Roots", okV2: true, sections: op != "Roots", secBuf: buf})
 		}
 		for _, op := range []string{"Has", "Get", "GetStream"} {
 			buf := ""
